@@ -355,11 +355,12 @@ def r5(model, rep):
         if is_src is None and warned is None:
             raise AnalysisError("row path does not decide (source?, warning?)")
         maps = [(name, val.get(vkey(dv))) for name, val in lf.env.items() if isinstance(val, DictV) and val.get(vkey(dv)) is not None
-                and isinstance(val.get(vkey(dv)), RF) and val.get(vkey(dv)).is_const()]
+                and ((isinstance(val.get(vkey(dv)), RF) and val.get(vkey(dv)).is_const()) or isinstance(val.get(vkey(dv)), bool))]
         val = maps[0][1] if maps else None
         if maps:
             flagmap = maps[0][0]
-        have = None if val is None else val.const_value()
+        # a flag kept as True / False is the flag kept as 1 / 0
+        have = None if val is None else (int(val) if isinstance(val, bool) else val.const_value())
         # a path that does not look at one of the two questions is taken for both answers: what it leaves in the flag holds for both
         for src_case in ([is_src] if is_src is not None else [True, False]):
             for warn_case in ([warned] if warned is not None else [True, False]):
@@ -380,7 +381,8 @@ def r5(model, rep):
             t = ast.unparse(s.test).replace(" ", "")
             yes = [a for a in s.body if appends_const(a, wname, "Yes")]
             no = [a for a in s.orelse if appends_const(a, wname, "")]
-            if yes and no and (t.endswith(">0") or t.endswith("==1") or t.endswith("!=0") or t.startswith("0<") or t.startswith("1==") or t.startswith("0!=")):
+            if yes and no and (t.endswith(">0") or t.endswith("==1") or t.endswith("!=0") or t.startswith("0<") or t.startswith("1==") or t.startswith("0!=")
+                               or (isinstance(s.test, ast.Subscript) and isinstance(s.test.value, ast.Name) and s.test.value.id == flagmap)):
                 ok = True
     if not ok:
         # is there any if on the flag map that appends 'Yes' / '' at all?  if not, the roll-up is written in a form this rule
